@@ -114,6 +114,16 @@ reg("C08", "Hypothesis content multisets -> gensquashfs built with a 2..8 bit ch
     "read back byte-exact while truly identical contents still share storage. A reference xxh32 in Python counts the collisions actually "
     "forced per case.", "Only the checksum function is replaced; hash-table behaviour with a 32 bit hash is covered by C01.", "DESIGN.md 4/C08")
 
+reg("C05", "libFuzzer (ASan+UBSan) on the reader API + Hypothesis structure-aware field mutation through the CLI tools", "exploration",
+    "coverage-guided fuzzing with bounded-work harness + structure-aware mutation of an independently written image",
+    "src/fz_image.c drives super block, compressor, id/fragment/xattr tables, the tree reader, data reader (stream, positional, per block, "
+    "fragment) and the sqfs2tar iterator stack + tar header writer over the fuzzed bytes, seeded with Python- and tool-written images of every "
+    "compressor and from an empty corpus; a second layer sets 0-3 named on-disk fields of a Python-written image to boundary values or builds "
+    "directory loops and runs rdsquashfs -l/-d/-s/-x/-c/-u, sqfs2tar and sqfsdiff (ASan) under a time limit. No sanitizer report, no signal, "
+    "exit status 0/1 (sqfsdiff 0/1/2), termination.",
+    "Fuzz campaigns are approximately reproducible; artifacts are re-run stand-alone before they count; work proportional to sizes an image "
+    "merely claims is bounded inside the harness and skipped in the CLI layer.", "DESIGN.md 4/C05")
+
 NOT_YET = {}
 
 ALL = ["C%02d" % i for i in range(1, 20)]
